@@ -60,7 +60,10 @@ def handle {K : Type} [Num K] [BEq K] (sc : Sc K) (op : String) : M String := do
     let modes ← rep (rep (num sc) size) k; done
     match lstsqNormal modes data mask with
     | none => pure "rankdef"
-    | some c => pure (out sc c)
+    | some c =>
+      let res := normalResidual modes data mask c
+      let okNormal := res.all (fun r => r == Num.ofInt 0)
+      pure (out sc c ++ (if okNormal then " | normal-equations-hold" else " | normal-equations-VIOLATED"))
   | _ => failure
 
 def step (t : List String) : String :=
